@@ -5,7 +5,7 @@ Least-squares residual vectors of the Gumbel / GumbelMin fits: invariance under 
 symmetry between minima and maxima (median-rank plotting positions are symmetric: `F_i + F_{n+1-i} = 1`).
 -/
 namespace Qats.Est
-open Qats Qats.Dist Qats.SN Qats.Gen
+open Qats Qats.Dist Qats.Gen
 
 theorem gu_cdf_affine (loc s a b x : ℝ) (ha : a ≠ 0) :
     gu_cdf (a * loc + b) (a * s) (a * x + b) = gu_cdf loc s x := by
